@@ -267,6 +267,64 @@ class Run:
         return ms
 
 
+    def hist(self, pool, maxcalls, nslots=2, maxiters=3, docs_per=1, stage=None, binary=None):
+        """API histories: TLC enumerates every call sequence (MC_Hist), the
+        harness runs each on one shared compiled expression and records the
+        replies, TLC validates the recorded sessions against XApi."""
+        stage = stage or ("hist-" + pool)
+        r = self.tlc("MC_Hist", {"MaxCalls": maxcalls, "NSlots": nslots, "MaxIters": maxiters, "PoolName": pool},
+                     invariants=("Emit", "EmitPool"), name=stage + "-gen")
+        self.nstage += 1
+        trace = os.path.join(self.work, "%02d-%s.sessions.ndjson" % (self.nstage, stage))
+        p = subprocess.run([binary or self.xvh, "hist", "-in", r["outfile"], "-out", trace, "-seed", str(self.seed),
+                            "-docs", str(docs_per)], capture_output=True, text=True)
+        if p.returncode != 0:
+            raise ToolingError("hist driver failed (%d): %s%s" % (p.returncode, p.stdout, p.stderr))
+        self.log(p.stdout.strip())
+        return self.validate_sessions(trace, stage)
+
+    def validate_sessions(self, trace, stage, module="XApiBatch"):
+        nlines = sum(1 for _ in open(trace))
+        r = self.tlc(module, {"Chunk": 64}, invariants=("Validate",), name=stage + "-validate",
+                     env_extra={"VERIF_TRACE": trace})
+        if r["states"] < nlines:
+            raise ToolingError("%s: TLC visited %d states for %d sessions" % (stage, r["states"], nlines))
+        rejected = []
+        if os.path.exists(r["outfile"]):
+            for line in open(r["outfile"]):
+                line = line.strip()
+                if line:
+                    rejected.append(json.loads(json.loads(line) if line.startswith('"') else line))
+        ms = []
+        if rejected:
+            want = {rj["l"]: rj for rj in rejected}
+            for i, line in enumerate(open(trace), 1):
+                if i in want:
+                    s = json.loads(line)
+                    rj = want[i]
+                    upto = s["h"][:rj["i"]] if rj["at"] == "history" else []
+                    ms.append({"stage": stage, "flow": "B", "line": i, "kind": "session", "expr": s["x"], "ctx": s["cs"],
+                               "fail": rj["fail"], "via": rj["at"], "want": {"fresh": s["fresh"]},
+                               "got": {"rejected_event": rj["i"], "history": upto}, "case": {"e": s["e"], "m": s["m"], "ds": s["ds"], "cs": s["cs"], "skel": s["skel"]}})
+        nev = 0
+        sample = None
+        for line in open(trace):
+            if sample is None:
+                sample = json.loads(line)
+            nev += line.count('"op"')
+        self.traces += nlines
+        self.evaluations += nev
+        if sample:
+            sample.pop("ds", None)
+            self.samples.append(sample)
+        self.stages.append({"stage": stage, "flow": "A+B", "sessions": nlines, "events": nev, "rejected": len(rejected)})
+        self.log("validate %s: %d sessions, %d events, %d rejected" % (stage, nlines, nev, len(rejected)))
+        self.mismatches += ms
+        if not self.keep:
+            os.remove(trace)
+        return ms
+
+
 # ----------------------------------------------------------------------
 def load_findings():
     path = os.path.join(VERIF, "known_findings.jsonl")
